@@ -59,8 +59,8 @@ theorem cov01_le (c : List ℚ) (hc : ∀ v ∈ c, 0 ≤ v) : covAt c 0 + covAt 
   · intro d _ _; exact covAt_nonneg c hc d
 
 /-- the three generated `P_case` expressions in closed form -/
-theorem nocallPart_eq (c : List ℚ) (g : List ℕ) (pr : ℚ) :
-    nocallPart c g pr = pr *
+theorem nocallPart_eq (c : List ℚ) (af : ℕ) (g : List ℕ) (pr : ℚ) :
+    nocallPart c af g pr = pr *
       (covAt c 0 ^ g.count 2 * covA c ^ g.count 1
         + (g.count 2 : ℚ) * covAt c 1 * covAt c 0 ^ (g.count 2 - 1) * covA c ^ g.count 1
         + covAt c 0 ^ g.count 2 * ((g.count 1 : ℚ) * covB c * covA c ^ (g.count 1 - 1))) := by
@@ -81,8 +81,8 @@ theorem nocallPart_eq (c : List ℚ) (g : List ℕ) (pr : ℚ) :
   · simp [h2, zpowR_pred _ _ h1, zpowR_pred _ _ h2]; ring
 
 /-- each partition contributes between 0 and its probability -/
-theorem nocallPart_bounds (c : List ℚ) (hc : ∀ v ∈ c, 0 ≤ v) (hs : lsum c ≤ 1) (g : List ℕ) (pr : ℚ)
-    (hpr : 0 ≤ pr) : 0 ≤ nocallPart c g pr ∧ nocallPart c g pr ≤ pr := by
+theorem nocallPart_bounds (c : List ℚ) (hc : ∀ v ∈ c, 0 ≤ v) (hs : lsum c ≤ 1) (af : ℕ) (g : List ℕ) (pr : ℚ)
+    (hpr : 0 ≤ pr) : 0 ≤ nocallPart c af g pr ∧ nocallPart c af g pr ≤ pr := by
   rw [nocallPart_eq]
   have h0 := covAt_nonneg c hc 0
   have h1 := covAt_nonneg c hc 1
